@@ -110,6 +110,7 @@ func c10SecondReference(w *World, spec RunSpec, scnPrefix []uint32, epoch int) (
 		}
 	}
 	for round := 0; round < 3; round++ {
+		time.Sleep(120 * time.Second)
 		if changed, _ := ref2.probePasses(ref2.Cfg.CalmBudget); !changed {
 			break
 		}
@@ -200,6 +201,9 @@ func planC10(w *World, spec RunSpec) {
 		// followed by another settle, and only persistent change is reported.
 		idle := false
 		for round := 0; round < 3 && !idle; round++ {
+			// let more simulated time pass than any success delay before the extra passes: a rollout that
+			// only completed during the resync round above still has its delay to sit out
+			time.Sleep(120 * time.Second)
 			changed, ok := w.probePasses(w.Cfg.CalmBudget)
 			if !ok || w.stopNow {
 				break
@@ -228,6 +232,7 @@ func planC10(w *World, spec RunSpec) {
 			return
 		}
 		for round := 0; round < 3; round++ {
+			time.Sleep(120 * time.Second)
 			if changed, _ := ref.probePasses(ref.Cfg.CalmBudget); !changed {
 				break
 			}
